@@ -23,6 +23,13 @@ static Boxed_Value build(const mj::Value &t) {
 static mj::Value cmd_c18(const mj::Value &rq) {
   Slot &s = slot(rq.at("id").num());
   mj::Value r = mj::Value::object();
+  if (rq.has("poison")) {
+    // a rejected text parsed first on the same engine and thread: nothing of it may leak into the next conversion
+    s.chai->set_global(chaiscript::var(rq.at("poison").str()), "c18_poison");
+    mj::Value ignored = mj::Value::object();
+    guarded(ignored, [&]() { return s.chai->eval("from_json(c18_poison)"); });
+    r.set("poison_rejected", ignored.has("exc"));
+  }
   const Boxed_Value v = build(rq.at("tree"));
   s.chai->set_global(v, "c18_val");
   r.set("orig", render(v));
